@@ -32,7 +32,7 @@ TIERS = {
 STEP_CAP = 500000
 SHRINK_BUDGET = 300
 FAULT_OPS = ("gc", "drop_graph", "alloc", "flood")
-PROBES = ["cache_entry_read_by_engine_with_other_attrs", "weak_entry_purged_by_gc", "proper_subgraph_query",
+PROBES = ["caller_supplied_comparator", "cache_entry_read_by_engine_with_other_attrs", "weak_entry_purged_by_gc", "proper_subgraph_query",
           "filter_on_off_pair", "one_edit_neighbour_pair", "relabelled_pair", "hcount_asymmetric_pair",
           "contained_and_mapped", "engine_shares_graph_with_other_engine", "call_relying_on_signature_defaults", "multi_component_pattern", "graph_derived_from_queried_object",
           "caller_list_mutated_between_calls", "planted_pattern_in_large_host", "label_flood"]
@@ -265,7 +265,8 @@ def generate(seed: int, tier: str = "quick") -> Dict[str, Any]:
                         "check_type": rng.choice(["induced", "monomorphism"]),
                         "api": rng.choice(["SubgraphMatch.subgraph_isomorphism", "SubgraphMatch.is_subgraph", "graph_morphism.subgraph_isomorphism"]),
                         "labels": rng.choice([["element", "charge"], ["element"]]),
-                        "style": rng.choice(["explicit", "explicit", "defaults", "names_only", "bare"])})
+                        "style": rng.choice(["explicit", "explicit", "defaults", "names_only", "bare"]),
+                        "cmp": rng.choice([None, None, None, "node", "edge", "both"])})
         elif c < 0.92:
             ops.append({"op": "q_giso", "s": s(), "i": rng.randrange(8), "j": rng.randrange(8)})
         else:
@@ -661,6 +662,28 @@ def _run(case: Dict[str, Any], sim: Sim, world: World) -> None:
             if res[True] != res[False]:
                 raise Violation(PROP, site, "filter_changes_verdict", "use_filter, " + ct,
                                 {"filter_on": res[True], "filter_off": res[False], "check_type": ct, "child": ch["spec"], "parent": pa["spec"]})
+            if op.get("cmp") and api != "SubgraphMatch.is_subgraph":
+                # the caller's own (symmetric) comparators: charge 0 matches any charge, bond order 2 matches any order
+                nc = (lambda a, b: a == b or a == 0 or b == 0) if op["cmp"] in ("node", "both") else None  # noqa: E731
+                ec = (lambda a, b: a == b or a == 2 or b == 2) if op["cmp"] in ("edge", "both") else None  # noqa: E731
+                kwc = {}
+                if nc:
+                    kwc["node_comparator"] = nc
+                if ec:
+                    kwc["edge_comparator"] = ec
+                resc = {f_: bool(fn(ch["g"], pa["g"], node_label_names=list(labels), node_label_default=list(defaults),
+                                    use_filter=f_, check_type=ct, **kwc)) for f_ in (False, True)}
+                sim.probe("caller_supplied_comparator")
+                n_ok = (lambda pk, hk: all(nc(a_, b_) for a_, b_ in zip(pk[0], hk[0]))) if nc else _eq_labels  # noqa: E731
+                e_ok = (lambda pe, he: all(ec(a_, b_) for a_, b_ in zip(pe, he))) if ec else None  # noqa: E731
+                truth_c = gr.exists(rc, rp_, mode="induced" if ct == "induced" else "mono", node_ok=n_ok, edge_ok=e_ok)
+                if resc[False] != truth_c:
+                    raise Violation(PROP, site, "verdict_wrong", "caller's comparator, use_filter=False, " + ct,
+                                    {"got": resc[False], "reference": truth_c, "cmp": op["cmp"], "child": ch["spec"], "parent": pa["spec"]})
+                if resc[True] != resc[False]:
+                    raise Violation(PROP, site, "filter_changes_verdict", "use_filter, caller's comparator",
+                                    {"filter_on": resc[True], "filter_off": resc[False], "cmp": op["cmp"], "check_type": ct,
+                                     "child": ch["spec"], "parent": pa["spec"]})
             sim.state(("sub", ct, truth, len(rc.nodes), len(rp_.nodes), tuple(labels)))
             sim.event("q_sub", {"api": api, "ct": ct, "got": res[False]})
         elif k == "q_giso":
